@@ -93,7 +93,7 @@ func runChannels(a *Analyzer, r *Results) {
 			}
 		}
 		if n == 0 {
-			r.Check("Z4.sleep", props("C16", "C15", "C12"), "library code never waits in a call that cancellation cannot interrupt (time.Sleep, WaitGroup/Cond waits): every pause is a select or receive on a context", "none", a.P.Pos(a.P.Func("(*leanhelix.MainLoop).run").Pos()), true, "", "X")
+			r.Check("Z4.sleep", props("C16", "C15", "C12"), "library code never waits in a call that cancellation cannot interrupt (time.Sleep, WaitGroup/Cond waits): every pause is a select or receive on a context", "none", a.P.Pos(a.P.Func(idMainRun).Pos()), true, "", "X")
 		}
 	}
 	ops := a.chanOps()
@@ -128,7 +128,7 @@ func runChannels(a *Analyzer, r *Results) {
 			for _, st := range sends {
 				lbl := chanLabel(c, st.Chan)
 				elem := st.Chan.Type().Underlying().(*types.Chan).Elem()
-				isHandoff := typeShort(elem) == "interfaces.ElectionTrigger" || typeShort(elem) == "leanhelix.blockWithProof"
+				isHandoff := typeShort(elem) == "interfaces.ElectionTrigger" || typeShort(elem) == syncMsgType
 				if !isHandoff {
 					continue
 				}
@@ -169,7 +169,7 @@ func runChannels(a *Analyzer, r *Results) {
 				}
 				elem := mc.Type().Underlying().(*types.Chan).Elem()
 				ts := typeShort(elem)
-				if ts != "interfaces.ElectionTrigger" && ts != "leanhelix.blockWithProof" {
+				if ts != "interfaces.ElectionTrigger" && ts != syncMsgType {
 					continue
 				}
 				// which field is it stored to?
@@ -210,7 +210,7 @@ func runChannels(a *Analyzer, r *Results) {
 		}
 		for _, ch := range chans {
 			ts := typeShort(ch.Type().Underlying().(*types.Chan).Elem())
-			if ts == "interfaces.ElectionTrigger" || ts == "leanhelix.blockWithProof" {
+			if ts == "interfaces.ElectionTrigger" || ts == syncMsgType {
 				c := a.NewFCtx(op.fn, a.EntryEnv(op.fn, nil), 0)
 				prod[chanLabel(c, ch)] = append(prod[chanLabel(c, ch)], funcID(op.fn))
 			}
